@@ -453,7 +453,8 @@ func C35(c *Ctx) {
 		}
 	}
 	if fn := c.Fn("lsm", "table.loadBlock"); fn != nil {
-		need(c, r2, fn, false, "verifyCheckSum", Named("lsm.(block).verifyCheckSum", "lsm.(*block).verifyCheckSum"), 1)
+		vs := verifySites(c, fn, Named("utils.VerifyChecksum"), 2)
+		c.Decide(len(vs) >= 1, r2, key(fn, "has:verifyCheckSum"), fn.Pos(), len(vs)+1, "loadBlock verifies through utils.VerifyChecksum", "loadBlock has no verification site reaching utils.VerifyChecksum")
 	}
 	const r4 = "K2.table-cut-at-key-boundary"
 	tableCutGroup(c, r4)
@@ -495,6 +496,16 @@ func C35(c *Ctx) {
 	c.Rule(r3, "block footer layout agrees between builder and reader: entry-offsets count (4 bytes), checksum (8 bytes), checksum length (4 bytes)")
 	if fn := c.Fn("lsm", "table.loadBlock"); fn != nil {
 		w := suffixWidthsAll(fn)
+		// the footer arithmetic may live in a helper of loadBlock (e.g. a trailer decoder)
+		AllInstrs(fn, false, func(in ssa.Instruction) {
+			if ci, ok := in.(ssa.CallInstruction); ok {
+				if h := StaticFn(ci.Common()); h != nil && h.Blocks != nil && h != fn && FuncPkgPath(h) == FuncPkgPath(fn) {
+					for k, n := range suffixWidthsAll(h) {
+						w[k] += n
+					}
+				}
+			}
+		})
 		c.Decide(w[4] >= 2, r3, key(fn, "reads:4-byte-fields"), fn.Pos(), len(w)+1, "reads the two 4-byte footer fields", fmt.Sprintf("loadBlock footer arithmetic uses widths %v (expected two 4-byte fields)", w))
 	}
 	if fn := c.Fn("lsm", "tableBuilder.finishBlock"); fn != nil {
